@@ -563,6 +563,9 @@ class GenConfig:
     p_expanded: float = 0.3
     use_imported_types: bool = True
     no_bool_vectors: bool = False   # yardl's C++ ReadVector does not compile for std::vector<bool> (C08, not claimed)
+    p_pod_record: float = 0.3       # records made of fixed-size fields only (whole-record copy paths, struct padding)
+    p_optional_alias: float = 0.3   # aliases whose target can be absent (T?, nullable unions)
+    time_keys: bool = False         # date/datetime map keys (Python only: C++ has no std::hash for them, C08)
 
     @staticmethod
     def swarm(rng: Rng) -> "GenConfig":
@@ -580,6 +583,9 @@ class GenConfig:
         c.p_stream = rng.choice([0.2, 0.45, 0.8])
         c.p_expanded = rng.choice([0.0, 0.3, 0.8])
         c.use_imported_types = rng.chance(0.7)
+        k = rng.fork("shapes")          # forked: the knobs above keep the values they had before these were added
+        c.p_pod_record = k.choice([0.0, 0.3, 0.6])
+        c.p_optional_alias = k.choice([0.0, 0.3, 0.6])
         return c
 
 
@@ -635,6 +641,7 @@ class PackageGen:
         # pool entries: (Named type (closed), kind, props)
         self.pool = []          # closed named types usable anywhere
         self.generic_defs = []  # (def, kind)
+        self.pod_pool = []      # records made of fixed-size fields only
         for imp in (imports if cfg.use_imported_types else ()):
             for d in imp.defs():
                 if isinstance(d, Protocol):
@@ -723,6 +730,8 @@ class PackageGen:
     def gen_prim(self, numeric_only=False, key=False) -> Prim:
         r = self.rng
         if key:
+            if self.cfg.time_keys and self.cfg.time_types and r.chance(0.2):
+                return Prim(r.choice(["date", "datetime"]))
             return Prim(r.choice(["string", "string", "int32", "uint8", "int64", "uint64", "int16", "size"]))
         if numeric_only:
             opts = INT_PRIMS + FLOAT_PRIMS + ["bool"]
@@ -903,8 +912,34 @@ class PackageGen:
         self.add(d, r.randrange(8))
         self.pool.append(Named(name))
 
+    POD_PRIMS = ["float32", "float64", "int8", "uint8", "bool", "float32", "float64", "uint8"]
+
+    def gen_pod_record(self):
+        """A record of fixed-size fields only, of mixed widths in any order (1, 4, 8, 16 bytes; fixed vectors and
+        earlier records of this kind nested): what the back ends may copy as a block, padding and all."""
+        r, c = self.rng, self.cfg
+        name = self.type_name("Rec")
+        prims = list(self.POD_PRIMS) + (COMPLEX_PRIMS if c.complex_types else [])
+        fields = []
+        for fname in self.member_names(r.randint(1, 4)):
+            k = r.weighted([("prim", 6), ("fixedvec", 2), ("pod", 2 if self.pod_pool else 0)])
+            if k == "prim":
+                t = Prim(r.choice(prims))
+            elif k == "fixedvec":
+                t = Vec(Prim(r.choice([p for p in prims if p != "bool"])), r.randint(1, 3))
+            else:
+                t = r.choice(self.pod_pool)
+            fields.append((fname, t))
+        d = Record(name, (), fields)
+        d._param_in_opt = d._param_in_vec = False
+        self.add(d, r.randrange(8))
+        self.pool.append(Named(name))
+        self.pod_pool.append(Named(name))
+
     def gen_record(self):
         r, c = self.rng, self.cfg
+        if r.fork("pod", len(self.pool)).chance(c.p_pod_record):
+            return self.gen_pod_record()
         generic = c.generics and r.chance(0.25)
         params = tuple(r.sample(["T", "U", "V"], r.randint(1, 2))) if generic else ()
         name = self.type_name("Rec")
@@ -962,6 +997,10 @@ class PackageGen:
             self.generic_defs.append(d)
             return
         t = self.gen_type(c.max_depth, (), allow_param=False)
+        if r.fork("optalias", name).chance(c.p_optional_alias) and not self.bad_case_type(t) and not isinstance(t, Union):
+            # a named type that can be absent: `Label: string?`, or a nullable union
+            k = r.fork("optalias2", name)
+            t = Opt(t) if k.chance(0.7) else Union((("int32", Prim("int32")), ("string", Prim("string"))), nullable=True)
         d = Alias(name, (), t)
         self.add(d, r.randrange(8))
         self.pool.append(Named(name))
